@@ -116,6 +116,13 @@ MENU = [
        default=("v", 7)),
     # a required field whose no_input predicate ignores the value 2: that input leaves the field absent
     FD("no-input-pred-req", "Field(no_input=" + PRED2 + ")", no_input=("pred", _pred2)),
+    # required in some modes only, with a default for the others
+    FD("req-w-default", "Field(required='w', default=7)", required="w", default=("v", 7)),
+    FD("req-aw", "Field(required='aw')", required="aw"),
+    # the field's own case_insensitive=False wins over the class option
+    FD("ci-off", "Field(case_insensitive=False, required=False)", ci=False, required=False),
+    FD("ci-off-alias", "Field(case_insensitive=False, alias_from=['{n}_Old'], default=7)", ci=False, alias_from=["{n}_Old"],
+       required=False, default=("v", 7)),
 ]
 MENU_BY_TAG = {m.tag: m for m in MENU}
 QUICK_MENU = 8
@@ -153,6 +160,8 @@ OPTION_SETS = [
     # the exclude policy next to the options that make every field optional
     ("invalid_values='exclude', ignore_required=True", dict(invalid_values="exclude", ignore_required=True)),
     ("invalid_values='exclude', force_default=9", dict(invalid_values="exclude", force_default=9)),
+    # several spellings of one field are one field: the other fields are still demanded / defaulted (data-first counts keys)
+    ("data_first_search=True, ignore_alias_conflicts=True", dict(data_first_search=True, ignore_alias_conflicts=True)),
 ]
 # option sets that are also meaningful as *runtime* options of __from__ (alias / case maps are fixed at class creation;
 # the runtime addition *type* is documented to be ignored, so only None/True/False are used at run time)
@@ -245,6 +254,13 @@ def _field_key_owner(key, fields, opts):
     return None
 
 
+def _req(fd, mode):
+    """required=True, or required in the modes of a mode string (documented: required='w' demands the field in mode 'w' only)"""
+    if isinstance(fd.required, str):
+        return bool(mode) and mode in fd.required
+    return bool(fd.required)
+
+
 def _listed(spec, mode):
     """no_input / no_output given as a mode string"""
     return bool(mode) and isinstance(spec, str) and mode in spec
@@ -324,7 +340,7 @@ def model(fields, opts, items):
                     value = ("v", "x")
                     accepted[f.name] = True
                 elif on_error == "exclude":
-                    req = fd.required and not ignore_required
+                    req = _req(fd, mode) and not ignore_required
                     if req:
                         e.must.add(("ParseError", f.out))
                         e.may.add(("AbsenceError", f.out))
@@ -357,8 +373,8 @@ def model(fields, opts, items):
         else:
             # not provided, or the input is ignored
             accepted[f.name] = False
-            required = fd.required and not ignore_required and not always_ni
-            if raw and pred_ni and fd.required and not ignore_required:
+            required = _req(fd, mode) and not ignore_required and not always_ni
+            if raw and pred_ni and _req(fd, mode) and not ignore_required:
                 # a required field whose only input was refused by the predicate: undocumented
                 e.may.add(("AbsenceError", f.out))
                 e.unsure = True
